@@ -9,6 +9,6 @@ for d in seeded/C*/; do
 import json; m=json.load(open('$d/meta.json'))
 ps=[c['property'] for c in m['checks'] if c['caught']]
 print(' '.join(ps) if ps else m['breaks_property'])")
-  python3 tools/seed_eval.py run $id $props 2>&1 | grep -E "CAUGHT|MISSED" | cut -c1-140
+  SEED_SCRATCH=1 python3 tools/seed_eval.py run $id $props 2>&1 | grep -E "CAUGHT|MISSED" | cut -c1-140
 done
 echo ALLDONE
